@@ -414,6 +414,12 @@ SONG_MODEL_CORPUS = [
     ("c08song T5:17.30.0.0,2.40.2.2,17.31.0.0,2.41.2.2 @30=pcm,a.wav @31=pcm,a.wav,rate=4000 Wa.wav=%s X%s" % (_W16[0].hex(), _W16[1].hex()), ("pcm-song", "pcm-stream")),
     # regression for D11 (fixed in e0c1e8f): offset= on a freshly placed sample; the window ran past the data block
     ("c08song T5:17.30.0.0,2.40.6.2 @30=pcm,a.wav,offset=4 Wa.wav=%s X%s" % (_W16[0].hex(), _W16[1][4:].hex()), ("pcm-song", "pcm-offset")),
+    # two instruments on one wave file, the later one with an offset: the data is stored once and the second
+    # header keeps start=N, so the stream start must be position+start (and both windows lie in the one block)
+    ("c08song T5:17.30.0.0,2.40.2.2,17.31.0.0,2.41.2.2 @30=pcm,a.wav @31=pcm,a.wav,offset=4 Wa.wav=%s X%s X%s" % (_W16[0].hex(), _W16[1].hex(), _W16[1][4:].hex()),
+     ("pcm-song", "pcm-offset", "pcm-shared-offset")),
+    ("c08song T5:17.31.0.0,2.41.2.2,17.30.0.0,2.40.2.2,17.32.0.0,2.42.2.2 @30=pcm,a.wav @31=pcm,a.wav,offset=6 @32=pcm,a.wav,offset=2,rate=4000 Wa.wav=%s X%s X%s X%s"
+     % (_W16[0].hex(), _W16[1].hex(), _W16[1][6:].hex(), _W16[1][2:].hex()), ("pcm-song", "pcm-offset", "pcm-shared-offset")),
     # tags through get_tags: fallbacks #author -> author, #programer -> creator, author -> creator
     ("c08song T0:2.40.6.2 #title=41e38182 #composer=c3a9 #game=f09f9880", ("tags",)),
     ("c08song T0:2.40.6.2 #author=%s #programer=%s" % (hx("au"), hx("pr")), ("tags", "tag-fallback")),
